@@ -669,6 +669,15 @@ theorem performed_eq (cfg : Cfg) (attr : List (Option Obs)) (pend : Bytes → Bo
       reportLoop cfg (run (report cfg attr pend sh run encErr).checked).results :=
   (report_shape cfg attr pend sh run encErr).2.1
 
+/-- the model's `Report` always returns (a panic of the implementation is a disagreement and a violation) -/
+theorem report_never_panics (cfg : Cfg) (attr : List (Option Obs)) (pend : Bytes → Bool)
+    (sh : List Bytes → List Bytes) (run : List Bytes → RunnerAns) (encErr : Bool) :
+    (report cfg attr pend sh run encErr).status ≠ .panicked := by
+  unfold report reportWith
+  simp only []
+  repeat' split
+  all_goals simp
+
 /-- **spec_report_model.**  The model's `Report` satisfies the decidable C16 predicate the oracle
 evaluates on the implementation — for every configuration with batch ≥ 1 (all decoded ones), all
 observations, every coordinator predicate, every permutation as shuffle, every answer of the
@@ -682,6 +691,7 @@ theorem spec_report_model (cfg : Cfg) (hb : 1 ≤ cfg.batch) (attr : List (Optio
   have hlen := checked_le_ten cfg attr pend sh run encErr
   have hperf := performed_eq cfg attr pend sh run encErr
   have hst := (report_shape cfg attr pend sh run encErr).2.2
+  have hnp := report_never_panics cfg attr pend sh run encErr
   generalize report cfg attr pend sh run encErr = o at *
   have hsub : o.performed.Sublist (run o.checked).results ∧
       (∀ r ∈ o.performed, r.eligible = true ∧ r.eligErr = false ∧ r.detailErr = false) ∧
@@ -696,7 +706,7 @@ theorem spec_report_model (cfg : Cfg) (hb : 1 ≤ cfg.batch) (attr : List (Optio
   simp only [Bool.and_eq_true, List.all_eq_true, decide_eq_true_eq,
     Bool.or_eq_true, Bool.not_eq_true', bne_iff_ne, ne_eq, List.contains_iff_mem, List.mem_map,
     Bool.eq_false_iff]
-  refine ⟨⟨⟨⟨⟨⟨⟨⟨⟨?_, hnd⟩, ?_⟩, ?_⟩, hlen⟩, ?_⟩, hs3⟩, hs4⟩, ?_⟩, ?_⟩
+  refine ⟨⟨⟨⟨⟨⟨⟨⟨⟨⟨hnp, ?_⟩, hnd⟩, ?_⟩, ?_⟩, hlen⟩, ?_⟩, hs3⟩, hs4⟩, ?_⟩, ?_⟩
   · intro k hk
     obtain ⟨_, ob, hob, hv, id, hid, rfl⟩ := hkeys k hk
     refine ⟨id, ?_, rfl⟩
@@ -956,6 +966,56 @@ theorem observation_le_one_id (sh : List (Option Bytes) → List (Option Bytes))
   · refine ⟨by omega, ?_⟩
     intro x hx; exact hsh _ x hx
 
+private theorem processHead_eq (st : Stager) (h : Head) :
+    processHead st h = if headSampled h = true then { block := h.block, ids := stageIds h.results } else st := by
+  unfold processHead headSampled
+  by_cases h1 : h.srcErr = true
+  · simp [h1]
+  · by_cases h2 : h.active = 0
+    · simp [h1, h2]
+    · by_cases h3 : h.runErr = true
+      · simp [h1, h2, h3]
+      · simp [h1, h2, h3]
+
+private theorem foldl_processHead_cases (heads : List Head) (st0 : Stager) :
+    heads.foldl processHead st0 = st0 ∨
+    ∃ h ∈ heads, headSampled h = true ∧
+      heads.foldl processHead st0 = { block := h.block, ids := stageIds h.results } := by
+  induction heads generalizing st0 with
+  | nil => exact Or.inl rfl
+  | cons h t ih =>
+    simp only [List.foldl_cons]
+    rcases ih (processHead st0 h) with hq | ⟨h', hm, hs, hq⟩
+    · rw [hq, processHead_eq]
+      by_cases hsamp : headSampled h = true
+      · exact Or.inr ⟨h, by simp, hsamp, by rw [if_pos hsamp]⟩
+      · exact Or.inl (by rw [if_neg hsamp])
+    · exact Or.inr ⟨h', List.mem_cons_of_mem _ hm, hs, hq⟩
+
+/-- **observed_ids_eligible_at_block.**  At every observation point — after `n` heads, or while head
+`n` is still being sampled (`stagerAt`) — every identifier that `Observation` can list was returned
+by the sampling of a head whose block is the very block the observation carries, as a result that
+`Eligible` accepted without error (and `Detail` did not fail), and its key at that block is not
+pending.  In particular nothing sampled ineligible at that block, and nothing staged so far for the
+head in progress, can appear. -/
+theorem observed_ids_eligible_at_block (heads : List Head) (n : Nat) (pend : Bytes → Bool)
+    (sh : List (Option Bytes) → List (Option Bytes)) (hsh : ∀ l, ∀ x ∈ sh l, x ∈ l) :
+    ∀ id ∈ observationIds sh (observe pend (stagerAt heads n)).2,
+      pend (mkKey (stagerAt heads n).block (idBytes id)) = false ∧
+      ∃ h ∈ heads.take n, headSampled h = true ∧ h.block = (stagerAt heads n).block ∧
+        ∃ r ∈ h.results, r.eligible = true ∧ r.eligErr = false ∧ r.detailErr = false ∧
+          id = (splitKey r.key).map (·.2) := by
+  intro id hid
+  have h1 := (observation_le_one_id sh hsh _).2 id hid
+  simp only [observe, List.mem_filter, Bool.not_eq_true'] at h1
+  refine ⟨h1.2, ?_⟩
+  unfold stagerAt at h1 ⊢
+  rcases foldl_processHead_cases (heads.take n) {} with hq | ⟨h, hm, hs, hq⟩
+  · rw [hq] at h1; simp at h1
+  · rw [hq] at h1 ⊢
+    obtain ⟨r, hr, he⟩ := stage_only_eligible h.results id h1.1
+    exact ⟨h, hm, hs, rfl, r, hr, he⟩
+
 private theorem lle_nil (block : Bytes) (limit : Nat) :
     limitedLengthEncode block [] limit = encodeObs block [] := by
   simp [limitedLengthEncode]
@@ -1023,7 +1083,7 @@ theorem spec_observation_model (sh : List (Option Bytes) → List (Option Bytes)
   rw [h3]
   simp only [Bool.and_eq_true, decide_eq_true_eq, List.all_eq_true, Bool.or_eq_true,
     Bool.not_eq_true', Option.isSome_some, beq_self_eq_true, and_true]
-  exact ⟨⟨hlen, fun x hx => List.contains_iff_mem.mpr (hmem x hx)⟩, Or.inr h2⟩
+  exact ⟨⟨⟨trivial, hlen⟩, fun x hx => List.contains_iff_mem.mpr (hmem x hx)⟩, Or.inr h2⟩
 
 set_option maxRecDepth 20000 in
 /-- non-vacuity: two heads (the second sampled), one of three eligible ids in flight, a 78-digit id -/
